@@ -18,7 +18,7 @@ func (cg CommentGroup) List() []string {
 		if util.IsEmptyStringOrWhiteSpace(comment) {
 			continue
 		}
-		list = append(list, comment)
+		list = append(list, escapeCommentTabs(strings.TrimRight(comment, " \t")))
 	}
 	return list
 }
@@ -71,5 +71,15 @@ func (c *CommentStmt) End() token.Position {
 }
 
 func (c *CommentStmt) Format(prefix ...string) string {
-	return peekOne(prefix) + c.Comment.Text
+	return peekOne(prefix) + escapeCommentTabs(strings.TrimRight(c.Comment.Text, " \t"))
+}
+
+// escapeCommentTabs protects the tabs inside a comment from the tabwriter; the text may start
+// with indentation that was put in front of it.
+func escapeCommentTabs(text string) string {
+	idx := strings.Index(text, "/")
+	if idx < 0 {
+		return text
+	}
+	return text[:idx] + escapeTabs(text[idx:])
 }
